@@ -1,6 +1,8 @@
 package main
 
 func init() {
+	propCfgs["C07"] = propConfig{SweepPkgs: []string{"/pkg/compaction", "/pkg/engine/storage", "/pkg/engine", "/pkg/engine/compaction", "/pkg/stats",
+		"/pkg/sstable", "/pkg/transaction", "/pkg/memtable", "/pkg/bloom_filter", "/pkg/config"}}
 	for _, id := range []string{"C03", "C04", "C17", "C06", "C07", "C16"} {
 		c := propCfgs[id]
 		c.Locks = true
